@@ -14,7 +14,9 @@ func init() {
 			"op-log position after file creation all crash images are built: durable prefix + every subset of the un-synced page writes/truncates " +
 			"(all 2^p subsets for p<=MaxFull, otherwise none/all/only-one/all-but-one/prefix/suffix families + random subsets) + torn header writes; each image " +
 			"is reopened through the normal open path and must expose exactly an allowed model state (identified by header txid), pass the allocator " +
-			"partition check, and (none/all images and every n-th other) run a suffix of transactions + clean reopen; distinct_nontrivial counts distinct " +
+			"partition check, and (none/all images and every n-th other) run a suffix of transactions + clean reopen; on every n-th of those the suffix " +
+			"(3 commits + 1 rollback) is recorded on the recovered image and ITS crash images are enumerated too (crash during the first transactions after a crash " +
+			"recovery: recovered state or one of the suffix commits, counters recrash-histories / images-second-level); distinct_nontrivial counts distinct " +
 			"histories that produced >=1 image inside a commit window with a proper (non-empty, non-full) subset kept or a torn header; image counts are in coverage.images*",
 		Assume: []string{
 			"page-granular loss: writes not covered by a completed Sync may each independently be lost; a completed Sync makes all earlier writes and size changes durable",
@@ -39,9 +41,9 @@ func crashParams(thorough bool, seed uint64) harness.CrashParams {
 		for i := 1; i < 84; i++ {
 			cuts = append(cuts, i)
 		}
-		return harness.CrashParams{MaxFull: 7, Random: 40, TornCuts: cuts, SuffixEvery: 12, MaxImages: 20000, Seed: seed}
+		return harness.CrashParams{MaxFull: 7, Random: 40, TornCuts: cuts, SuffixEvery: 12, MaxImages: 20000, Seed: seed, RecrashEvery: 30}
 	}
-	return harness.CrashParams{MaxFull: 5, Random: 6, TornCuts: []int{1, 20, 40, 60, 83}, SuffixEvery: 50, MaxImages: 12000, Seed: seed}
+	return harness.CrashParams{MaxFull: 5, Random: 6, TornCuts: []int{1, 20, 40, 60, 83}, SuffixEvery: 50, MaxImages: 12000, Seed: seed, RecrashEvery: 120}
 }
 
 // RunC01 records one history and checks all its crash images.
@@ -63,6 +65,8 @@ func RunC01(p *harness.Program, thorough bool) Result {
 	c["images-nontrivial"] = st.Nontrivial
 	c["images-suffix-run"] = st.Suffixes
 	c["positions"] = st.Positions
+	c["recrash-histories"] = st.Recrashes
+	c["images-second-level"] = st.Images2
 	c["recovered-new-in-window"] = st.RecoveredTo["new"]
 	c["recovered-old-in-window"] = st.RecoveredTo["old"]
 	c["torn-valid-skipped"] = st.TornValid
